@@ -113,7 +113,7 @@ def run(model, rep, tier):
     okk = False
     if len(hs) == 1:
         t = " ".join(src(hs[0]).split())
-        okk = t.endswith("if prefer_truncation: if r.section < dns.renderer.ADDITIONAL: r.flags |= dns.flags.TC else: raise")
+        okk = pat.ends_with(hs[0], "...\nif prefer_truncation:\n    if r.section < dns.renderer.ADDITIONAL:\n        r.flags |= dns.flags.TC\nelse:\n    raise")
     rep.check(okk, "R-08.3", tw.qualname, where(tw, hs[0] if hs else tw.node), "TooBig: with prefer_truncation set TC iff section < ADDITIONAL, otherwise re-raise",
               "the truncation arm changed (TC condition is not exactly `r.section < ADDITIONAL`, or TooBig is swallowed without prefer_truncation)", stmt="tc-arm")
     whs = [n.id for (n, _c) in wh]
